@@ -17,7 +17,7 @@ TRUSTED = [
     'correspondence harness: generators, rank mapping, recording callables',
 ]
 
-def _impl_eval(ranges, r, plain=()):
+def _impl_eval(ranges, r, plain=(), share=False):
     """value/deriv/deriv2 of the real Multi_Range_Potential_Form for ranges [(marker, start, id)]; the ranges whose id is in
     `plain` are bare callables without .deriv/.deriv2: their derivative is the numerical one of that range's own (constant)
     function, i.e. exactly 0.0"""
@@ -32,6 +32,12 @@ def _impl_eval(ranges, r, plain=()):
         def __call__(self, r): return 1000.0 + self.i
     defs = [Multi_Range_Defn(m, s, (P(i) if i in plain else F(i))) for (m, s, i) in ranges]
     mr = create_Multi_Range_Potential_Form(*defs)
+    if share:
+        # other potentials built AFTERWARDS from some of the same definition objects (every other one plus a new range; all but the last
+        # one, listed backwards): a definition used in two potentials belongs to neither
+        fin = [s for (_, s, _) in ranges if s == s and abs(s) != float('inf')] or [0.0]
+        create_Multi_Range_Potential_Form(*([d for k, d in enumerate(defs) if k % 2 == 0] + [Multi_Range_Defn('>=', min(fin) + 0.125, F(99))]))
+        create_Multi_Range_Potential_Form(*(defs[::-1][1:] or defs))
     def at(x):
         d = mr.deriv(x) if hasattr(mr, 'deriv') else 0.0
         d2 = mr.deriv2(x) if hasattr(mr, 'deriv2') else 0.0
@@ -198,11 +204,11 @@ def oracle(case):
         qs = [qs[(7 * k) % len(qs)] for k in range(len(qs))] + sorted(qs, reverse=True)[:6] + ([r] if r == r and abs(r) != float('inf') else [])
         same = lambda u, v: len(u) == len(v) and all(p_ == q_ or (p_ != p_ and q_ != q_) for p_, q_ in zip(u, v))
         try:
-            at = _impl_eval(list(ranges), None, tuple(case.get('plain', [])))
+            at = _impl_eval(list(ranges), None, tuple(case.get('plain', [])), share=True)
             for x in qs:
                 a = at(x); b = _impl_eval(list(ranges), x, tuple(case.get('plain', [])))
                 if not same(a, b):
-                    fails.append('the same object asked at r=%r after other separations gives %r, a fresh object gives %r (queries so far: %r)' % (x, a, b, qs[:qs.index(x) + 1][-4:])); break
+                    fails.append('the same object (its range definitions also used by two potentials built after it) asked at r=%r after other separations gives %r, a fresh object gives %r (queries so far: %r)' % (x, a, b, qs[:qs.index(x) + 1][-4:])); break
         except Exception as e:
             fails.append('a history of queries raised %s: %s' % (type(e).__name__, str(e)[:80]))
     # order independence (only determined by the statement when keys are distinct)
